@@ -26,6 +26,46 @@ def run(index, rep):
     rep.guard(feed_species, index, rep)
     rep.guard(starve, index, rep)
     rep.guard(prio, index, rep)
+    rep.guard(reset_rule, index, rep)
+
+
+def reset_rule(index, rep):
+    """the requirement a species is fed against is this month's: on every path through reset_NE_balance the balance is rebuilt from
+    net_energy_required_per_species() (a path that returns without doing so leaves last month's unfilled deficit as the requirement)"""
+    rule = "C07.NE"
+    fn = index.func(ANIM, "AnimalSpecies.reset_NE_balance")
+    cls = index.cls(ANIM, "AnimalSpecies")
+
+    def runit(it):
+        it.classes = {"AnimalSpecies": cls}
+
+        def hook(interp, d, a, kw, node):
+            if d == "self.net_energy_required_per_species":
+                return Rat.atom(("required-this-month",))
+            if d == "Food":
+                vals = list(a) + [kw[k_] for k_ in ("kcals", "fat", "protein") if k_ in kw]
+                return Obj(None, {"kcals": vals[0] if vals else None}, "food")
+            return NotImplemented
+
+        it.call_hook = hook
+        obj = Obj(cls, {"NE_balance": Obj(None, {"kcals": Rat.atom(("left-over-from-last-month",))}, "food"),
+                        "current_population": Rat.atom(("herd",))}, "self")
+        it.call_function(fn, [], {}, obj)
+        return obj
+
+    try:
+        leaves = [x for x in explore(runit, month_classes=False) if not isinstance(x[2], Abort)]
+    except Unsupported as e:
+        raise AnalysisError(f"reset_NE_balance outside the analysed fragment: {e}")
+    if not leaves:
+        raise AnalysisError("reset_NE_balance: no path")
+    for _, dec, obj, it in leaves:
+        bal = obj.attrs.get("NE_balance")
+        kc = bal.attrs.get("kcals") if isinstance(bal, Obj) else None
+        ok = isinstance(kc, Rat) and kc == Rat.atom(("required-this-month",))
+        rep.check(ok, rule, "reset: balance = this month's requirement|" + (",".join(f"{k}={'T' if v else 'F'}" for k, v in sorted(dec.items())) or "always"),
+                  "a path through reset_NE_balance leaves the balance as it was (last month's unfilled deficit would be fed as this month's "
+                  "requirement: a herd that is gone keeps eating, and is delivered more than it requires)", loc=loc(ANIM, fn), detail=str(kc))
 
 
 def state7(index, rep):
